@@ -129,7 +129,7 @@ def run(ctx):
     wit = witness_pkgs()
     for cid, files, extra in wit:
         pk.append(("witness:" + cid, files, dict(extra, reps=40)))
-    ngen = ctx.n(40, 1500)
+    ngen = ctx.n(40, 500)
     for i in range(ngen):
         errs = [0, 0, 1, 2, 3][ctx.rng.below(5)]
         pk.append(("gen:%d:e%d" % (i, errs), g9gen.mixed_pkg(ctx.rng, errors=errs), {}))
